@@ -11,7 +11,7 @@ TECHNIQUE = "bounded-exhaustive enumeration of k-subsets (N<=7) + Hypothesis-dra
 RULE = ("exhaustive: for all 1<=k<=N<=Nmax (quick 6, thorough 7) every k-subset of the N blocks, in sorted and in one shuffled order, for a "
         "segment whose size is a multiple of k and for a padded tail segment; random: k<=N<=64 (thorough 256), random subsets, orders and "
         "sizes. Non-trivial = subset containing at least one secondary block (id>=k); distinct by (k,N,size,subset,order).")
-LEVEL_TEXT = "Round trip encode -> pick any k blocks -> decode == segment; complete over all subsets for small N, sampled beyond; includes the pad/trim arithmetic the callers use for tail segments, and the same blocks are also pushed through the immutable downloader's own DownloadNode._decode_blocks (full and tail segment)."
+LEVEL_TEXT = "Round trip encode -> pick any k blocks -> decode == segment; complete over all subsets for small N, sampled beyond; includes the pad/trim arithmetic the callers use for tail segments, and the same blocks are also pushed, in the same arrival order, through the immutable downloader's DownloadNode._decode_blocks and the mutable downloader's Retrieve._decode_blocks (full and tail segment)."
 ASSUMPTIONS = ["tail padding/trim is re-implemented here as callers do it (pad to a multiple of k, trim after decode) and additionally exercised through a bare DownloadNode (sizes from its own _calculate_sizes); whole downloads are covered by C01/C09",
                "zfec from /venv is the erasure-coding primitive"]
 EXHAUSTIVE = {"quick": True, "thorough": True}
@@ -90,6 +90,39 @@ def _via_downloader(ctx, case, k, N, size, segment, padded, blocks, order, bs):
                   "k=%d N=%d size=%d segnum=%d blocks=%r: DownloadNode._decode_blocks returned data differing from the segment" % (k, N, size, segnum, order))
 
 
+class _Status:
+    def accumulate_decode_time(self, t):
+        pass
+
+
+def _via_retrieve(ctx, case, k, N, size, segment, padded, blocks, order, bs):
+    """The same blocks, in the same arrival order, through the mutable downloader's decode step (Retrieve._decode_blocks, which receives a
+    {shnum: (block, salt)} dict in the order the servers answered): a two-segment file [S bytes][size bytes]."""
+    from allmydata.mutable.retrieve import Retrieve
+    S = len(padded)
+    r = Retrieve.__new__(Retrieve)
+    r.log = lambda *a, **kw: None
+    r._set_current_status = lambda st_: None
+    r._status = _Status()
+    r.verinfo = (1, b"r" * 32, None, S, S + size, k, N, b"", ())
+    r._data_length = S + size
+    r._offset, r._read_length = 0, S + size
+    try:
+        r._setup_encoding_parameters()
+    except Exception as e:
+        ctx.fail("retrieve-setup-exception", "Retrieve._setup_encoding_parameters raised %r for k=%d N=%d segsize=%d datalength=%d" % (e, k, N, S, S + size))
+        return
+    salt = b"s" * 16
+    for segnum, want in ((0, padded), (1, segment)):
+        try:
+            got, got_salt = now_result(r._decode_blocks([dict((i, (blocks[i], salt)) for i in order)], segnum))
+        except Exception as e:
+            ctx.fail("retrieve-decode-exception", "Retrieve._decode_blocks raised %r for k=%d N=%d segnum=%d blocks=%r" % (e, k, N, segnum, order))
+            continue
+        ctx.check(got == want and got_salt == salt, "retrieve-wrong-decode",
+                  "k=%d N=%d size=%d segnum=%d blocks (in arrival order)=%r: Retrieve._decode_blocks returned data differing from the segment" % (k, N, size, segnum, order))
+
+
 def run_case(case, ctx):
     from allmydata import codec
     from allmydata.util import mathutil
@@ -124,6 +157,7 @@ def run_case(case, ctx):
     # the same blocks through the downloader's own decode step (DownloadNode._decode_blocks), which owns the
     # tail pad/trim arithmetic in production: a two-segment file [S bytes][size bytes] with S = padded_size
     _via_downloader(ctx, case, k, N, size, segment, padded, blocks, order, bs)
+    _via_retrieve(ctx, case, k, N, size, segment, padded, blocks, order, bs)
     sec = any(i >= k for i in order)
     cl = [c for c, f in (("has-secondary", sec), ("padded-tail", padded_size != size), ("shuffled-order", order != sorted(order)), ("N>16", N > 16)) if f]
     ctx.note(sig=(k, N, size, tuple(order)), nontrivial=sec, classes=cl, sample=case)
